@@ -37,8 +37,10 @@ type postFn struct {
 
 // callRef names a static callee whose call in the executed function the clause speaks about.
 type callRef struct {
-	callee string // full name as go/ssa prints it
+	callee string // full name as go/ssa prints it; "<dynamic>" for a function value
 	idx    int    // result index; -1 for called(f)
+	dynFn  string // lowered function returning the function value (dynamic callees)
+	dynT   string // its term, filled in when the clause is evaluated
 }
 
 // extractCallRefs replaces result_of(f[, i]) and called(f) by gocvcall_<n> and returns the references (callee still as source text).
@@ -93,6 +95,8 @@ type FuncContract struct {
 	NoPanic  bool
 	Trusted  bool
 	Frame    bool
+	Context  bool
+	Pure     bool
 	Inline   []string
 	Havoc    []string
 	Assigns  []string
@@ -205,6 +209,12 @@ func parseContractText(text, path, pkgPath string) ([]*FuncContract, error) {
 			last = nil
 		case word == "trusted":
 			cur.Trusted = true
+			last = nil
+		case word == "pure":
+			cur.Pure = true // at call sites the function is an uninterpreted (deterministic) function of its arguments
+			last = nil
+		case word == "context":
+			cur.Context = true // closure verified in the context of its enclosing function (whose parameters are in scope)
 			last = nil
 		case word == "frame":
 			cur.Frame = true // verify that the objects behind pointer parameters are unchanged at return (except `assigns`)
@@ -395,6 +405,22 @@ func lowerExpr(s string) (string, error) {
 				return "", err
 			}
 			return "(" + la + " " + op + " " + lb + ")", nil
+		}
+	}
+	// comparison of a boolean with a parenthesised quantified formula: b == (exists ...)
+	if strings.Contains(s, "forall ") || strings.Contains(s, "exists ") || strings.Contains(s, "==>") {
+		for _, op := range []string{"==", "!="} {
+			if a, b, ok := splitTop(s, op); ok && !strings.HasPrefix(b, ">") {
+				la, err := lowerExpr(a)
+				if err != nil {
+					return "", err
+				}
+				lb, err := lowerExpr(b)
+				if err != nil {
+					return "", err
+				}
+				return "(" + la + " " + op + " " + lb + ")", nil
+			}
 		}
 	}
 	if strings.HasPrefix(s, "!") && strings.HasPrefix(strings.TrimSpace(s[1:]), "(") && balancedParen(strings.TrimSpace(s[1:])) {
@@ -890,7 +916,17 @@ func generateOverlay(pkg *packages.Package, contracts []*FuncContract, regions [
 					if err != nil {
 						return "", fmt.Errorf("%s:%d: result_of(%s): %v", fc.File, c.Line, ce, err)
 					}
-					pf.calls = append(pf.calls, callRef{callee: full, idx: callIdx[i]})
+					cr := callRef{callee: full, idx: callIdx[i]}
+					if full == "<dynamic>" {
+						cr.dynFn = fmt.Sprintf("verif_callref_%s_%d_%s", label, i, base)
+						dn := lc.usedNames(cex)
+						dps, err := lc.paramList(dn, "requires", nil)
+						if err != nil {
+							return "", fmt.Errorf("%s:%d: %v", fc.File, c.Line, err)
+						}
+						fmt.Fprintf(&body, "func %s(%s) any {\n\treturn %s\n}\n\n", cr.dynFn, dps, ce)
+					}
+					pf.calls = append(pf.calls, cr)
 					oldTypes[fmt.Sprintf("gocvcall_%d", i)] = rt
 				}
 				// gocvcall_ names are parameters of the lowered function as well
@@ -1023,6 +1059,9 @@ func generateOverlay(pkg *packages.Package, contracts []*FuncContract, regions [
 					break
 				}
 				i = j + 1
+			}
+			if used && (strings.Contains(bodyText, "("+name+" ") || strings.Contains(bodyText, ", "+name+" ")) {
+				used = false // a parameter of that name: the occurrences are field selections on the variable
 			}
 			if used {
 				clash := false
